@@ -17,7 +17,9 @@ TInit == /\ t \in 1 .. NT /\ l = 2
          /\ LET e == Traces[t][1] IN
               /\ kind = e.kind /\ forb = ToSet(e.forbidden)
               /\ lo = e.lo /\ hi = e.hi /\ val = e.val /\ last = "ok"
-              /\ lo = Lo /\ hi = Hi /\ val = Lo /\ Seen(e)
+              /\ Lo <= lo /\ lo <= Hi /\ Lo <= hi /\ hi <= Hi /\ (kind = "limits" => lo <= hi)
+              /\ e.cfg = <<lo, hi>>      \* the limit parameters start with the configured values
+              /\ val = Lo /\ Seen(e)
 
 TStep ==
   /\ l <= Len(Traces[t])
